@@ -345,8 +345,31 @@ def gen_c06(rnd, n, thorough=False):
                     pts = [(now - rnd.randint(0, R - 1), value(rnd, nan_ok)) for _j in range(rnd.randint(1, 10))]
                     if rnd.chance(0.3):       # future-dated points: stored by the batch API, one lap ahead of old slots
                         pts += [(now + rnd.randint(1, 3 * layout[0][0]), value(rnd, nan_ok)) for _j in range(rnd.randint(1, 3))]
+                    cand = [a_ for a_ in range(k) if layout[a_][0] >= 2 and layout[a_][1] >= 4]
+                    if cand and rnd.chance(0.3):
+                        # a run of consecutive intervals of one archive with one interval missing and another one
+                        # hit twice (two different timestamps): as many points as intervals spanned
+                        ident = rnd.pick(cand)
+                        S_, N_ = layout[ident]
+                        m_ = rnd.randint(3, min(N_, 8))
+                        iend = now // S_
+                        ivs = list(range(iend - m_ + 1, iend + 1))
+                        hole = rnd.randrange(1, m_ - 1)
+                        twice = rnd.choice([j_ for j_ in range(m_) if j_ != hole])
+                        pts = []
+                        for j_, iv in enumerate(ivs):
+                            if j_ == hole:
+                                continue
+                            offs = rnd.sample(range(S_), 2 if j_ == twice else 1)
+                            pts += [(min(iv * S_ + o_, now), value(rnd, nan_ok)) for o_ in sorted(offs)]
+                        if rnd.chance(0.3):
+                            ident = -1 if ident == 0 else ident
                     lines.append("many f %d %d %d %s" % (ident, now, len(pts), " ".join("%d %016x" % tv for tv in pts)))
-            lines += ["sync f", "drop f"]
+            lines += ["sync f"]
+            # the file whispertool wrote is the file of the model (the classic file of this history): every
+            # archive's whole retention through a second handle on the path
+            lines += ["dfetch f %d %d %d %d" % (a_, max(now - rets[a_], 0), now, now) for a_ in range(k)]
+            lines += ["drop f"]
         else:
             lines.append("gwcreate f %s m %d x %08x" % (fmt_layout(layout), m, xff))
             for _ in range(rnd.randint(0, 8)):
@@ -366,6 +389,9 @@ def gen_c06(rnd, n, thorough=False):
             un = rnd.pick([now, fr + rnd.randint(1, rets[band]), fr + layout[band][0], fr, now + 5])
             rnow = now - rnd.randint(1, 3 * layout[0][0]) if rnd.chance(0.25) else now      # a reader whose clock lags the writer's
             lines.append("clixread f %d %d %d" % (max(fr, 0), max(un, 0), rnow))
+        for band in range(k):
+            # ... and the whole retention of every archive
+            lines.append("clixread f %d %d %d" % (max(now - rets[band], 0), now, now))
         cases.append({'id': 'c06-%d' % c, 'lines': lines, 'tags': {'layout': lname, 'writer': writer, 'levels': k, 'method': m}})
         if rnd.chance(0.15):
             # a decimal xFilesFactor met EXACTLY (j known of 10 finer slots): both writers decide in float32
